@@ -363,16 +363,24 @@ def Hdr.decl {ε : Type} (h : Hdr) (body : Option (List (Stmt ε) × Tok)) : Dec
   | .proc kw name ps mods => .proc kw name ps mods body
   | .func kw name ps ret ty mods => .func kw name ps ret ty mods body
 
+def MName.isPlain : MName → Bool
+  | .plain _ => true
+  | .event _ _ _ => false
+
+/-- the continuation kinds of a `proc` header, by its shape -/
+def contOf (plainName noParams noMods : Bool) : List Kind :=
+  methodModKinds ++ (if noParams && noMods then Kind.OBracket :: (if plainName then [Kind.Pound] else []) else [])
+
 /-- **what `parse_proc_decl` / `parse_func_decl` still try after the header**: a modifier (`private`, `protected`, `final`,
     `override`, `external`, `forward`) always; after a `proc` header without parameter list and without modifiers also `(`
     (the parameter list) and — when the name is not already `Name#Event` — `#` -/
 def Hdr.cont : Hdr → List Kind
-  | .proc _ name ps mods =>
-    methodModKinds ++
-      (if ps.isNone && mods.isEmpty then
-        Kind.OBracket :: (match name with | .plain _ => [Kind.Pound] | .event _ _ _ => [])
-       else [])
+  | .proc _ name ps mods => contOf (MName.isPlain name) ps.isNone mods.isEmpty
   | .func _ _ _ _ _ _ => methodModKinds
+
+theorem contOf_facts (a b c : Bool) :
+    Kind.EndProc ∉ contOf a b c ∧ (∀ k ∈ contOf a b c, k ∈ sbad) ∧ (∀ k ∈ methodModKinds, k ∈ contOf a b c) := by
+  cases a <;> cases b <;> cases c <;> decide +kernel
 
 /-- the node the method parser builds from the header and the value `rs` of `reslice` -/
 def Hdr.node (h : Hdr) (rs : Tree) : Tree :=
@@ -437,11 +445,14 @@ theorem proc_after_name (kw : Tok) (name : MName) (ps : Option ParamList) (mods 
       exact ⟨parses_mname name hn _ hp, parses_paramlist p hps _⟩
     | none =>
       have hpar : Parses (.ref nParamList) B B Tree.none :=
-        paramlist_none_ahead B (hB.sub (by intro k hk; simp only [List.mem_singleton] at hk; subst hk; cases name <;> simp [Hdr.cont]))
+        paramlist_none_ahead B (hB.sub (by
+          intro k hk; simp only [List.mem_singleton] at hk; subst hk
+          show Kind.OBracket ∈ contOf (MName.isPlain name) true true
+          cases MName.isPlain name <;> decide))
       refine ⟨?_, hpar⟩
       cases name with
       | plain t =>
-        exact parses_mname (.plain t) hn B (hB.fails_tok Kind.Pound (by simp [Hdr.cont]) (by decide))
+        exact parses_mname (.plain t) hn B (hB.fails_tok Kind.Pound (by show Kind.Pound ∈ contOf true true true; decide) (by decide))
       | event m p e =>
         obtain ⟨hm, hpd, he⟩ := hn
         exact Parses.alt1 ((Parses.map (Parses.seqL (ParsesList.cons (parses_identifier m (p :: e :: B) hm)
@@ -449,7 +460,9 @@ theorem proc_after_name (kw : Tok) (name : MName) (ps : Option ParamList) (mods 
 
 theorem cont_mods (h : Hdr) : ∀ k ∈ methodModKinds, k ∈ h.cont := by
   intro k hk
-  cases h <;> simp [Hdr.cont, hk]
+  cases h with
+  | proc kw name ps mods => exact (contOf_facts _ _ _).2.2 k hk
+  | func kw name ps ret ty mods => exact hk
 
 /-- **one method with an arbitrary rest**: when nothing ahead continues the header, `parse_gold`'s item parser reads exactly
     the header, hands `B` to `reslice`, and returns the method node built from the slice — with the diagnostics of the
@@ -601,6 +614,109 @@ theorem top_prefix (pre : Prog ε) (K : List Tok) (hpre : WFBefore X pre K) (hK 
     rw [ht] at hd ⊢
     simp only [List.cons_append] at hd ⊢
     exact (top_step hd.toD (Decl.tree_ok X d0) ih').to rfl rfl
+
+/-! ## a method with a replaced body inside a well-formed program -/
+
+omit hX in
+theorem endK_not_cont (h : Hdr) : h.endK ∉ h.cont ∧ h.endK ≠ Kind.Comment := by
+  cases h with
+  | proc kw name ps mods => exact ⟨(contOf_facts _ _ _).1, by show Kind.EndProc ≠ Kind.Comment; decide⟩
+  | func kw name ps ret ty mods => exact ⟨by show Kind.EndFunc ∉ methodModKinds; decide, by show Kind.EndFunc ≠ Kind.Comment; decide⟩
+
+omit hX in
+/-- a slice that ended at an end token: nothing to report -/
+theorem endDiag_some (h : Hdr) (b : List Tok) (e : Tok) : h.endDiag (sliceVal b (some e)) = none := rfl
+
+omit hX in
+/-- a slice that ran to the end of the file: "end token not found", on the method's keyword -/
+theorem endDiag_none (h : Hdr) (b : List Tok) : h.endDiag (sliceVal b none) = some ⟨h.kw.rng, h.endMsg⟩ := rfl
+
+omit hX in
+theorem Hdr.head (h : Hdr) (hh : h.WF) (ss : List (Stmt ε)) (e : Tok) (post : Prog ε) :
+    (Prog.toks X (h.decl (some (ss, e)) :: post)).head? = some h.kw := by
+  obtain ⟨r', hr', _⟩ := h.first hh (bodyToks X (some (ss, e)) ++ Prog.toks X post)
+  simp only [Prog.toks, Hdr.decl_toks, List.append_assoc, hr', List.head?_cons]
+
+omit hX in
+theorem Hdr.tstop (h : Hdr) (hh : h.WF) (B : List Tok) : TStop (h.toks ++ B) := by
+  obtain ⟨r, hr, hkw⟩ := h.first hh B
+  rw [hr]
+  intro t' r' e'
+  cases e'
+  exact hkw
+
+/-- **the whole file, body replaced**: declarations before — the method, with the diagnostics of its slice — declarations after -/
+theorem garbled_top (pre post : Prog ε) (h : Hdr) (ss : List (Stmt ε)) (e : Tok)
+    (hwf : Prog.WF X (pre ++ h.decl (some (ss, e)) :: post)) (b : List Tok)
+    (hfree : TerminatorFree [h.endK, Kind.End] b) (hcont : NoCont h.cont b) :
+    ParsesD (.ref nTop) (Prog.toks X pre ++ (h.toks ++ (b ++ e :: Prog.toks X post))) []
+      (Tree.list (Prog.trees X pre ++ h.node (sliceVal b (some e)) :: Prog.trees X post)) (sliceDiags b) := by
+  have hq := Prog.WF_right X pre _ hwf
+  obtain ⟨hh, he, _⟩ := Hdr.of_decl X h ss e hq.1
+  have hpost := top_loop X hX post hq.2.2
+  obtain ⟨hnc, hcm⟩ := endK_not_cont h
+  have hB : NoCont h.cont (b ++ e :: Prog.toks X post) := hcont.append_end (he ▸ hnc) (he ▸ hcm)
+  have hrs := reslice_garbled [h.endK, Kind.End] b e (Prog.toks X post) hfree (by rw [he]; simp)
+  have hitem := item_garbled h hh _ _ hB _ _ hrs
+  rw [endDiag_some] at hitem
+  have hK := h.tstop hh (b ++ e :: Prog.toks X post)
+  have hpre : WFBefore X pre (h.toks ++ (b ++ e :: Prog.toks X post)) := by
+    refine WFBefore.of_wf X pre _ _ hwf ?_
+    obtain ⟨r, hr, _⟩ := h.first hh (b ++ e :: Prog.toks X post)
+    rw [h.head X hh, hr]; rfl
+  obtain ⟨r, hr, _⟩ := h.first hh (b ++ e :: Prog.toks X post)
+  rw [hr] at hitem
+  have hstep := top_step hitem (h.node_ok _) hpost.toD
+  rw [← hr] at hstep
+  exact (top_prefix X hX pre _ hpre hK _ _ hstep).to rfl (by simp)
+
+/-- **the whole file, end keyword missing** (the method is the last declaration): declarations before — the method over
+    everything that follows its header, reported -/
+theorem truncated_top (pre : Prog ε) (h : Hdr) (ss : List (Stmt ε)) (e : Tok)
+    (hwf : Prog.WF X (pre ++ [h.decl (some (ss, e))])) (b : List Tok)
+    (hfree : TerminatorFree [h.endK, Kind.End] b) (hcont : NoCont h.cont b) :
+    ParsesD (.ref nTop) (Prog.toks X pre ++ (h.toks ++ b)) []
+      (Tree.list (Prog.trees X pre ++ [h.node (sliceVal b none)])) (sliceDiags b ++ [⟨h.kw.rng, h.endMsg⟩]) := by
+  have hq := Prog.WF_right X pre _ hwf
+  obtain ⟨hh, he, _⟩ := Hdr.of_decl X h ss e hq.1
+  have hrs := reslice_truncated [h.endK, Kind.End] b hfree
+  have hitem := item_garbled h hh _ _ hcont _ _ hrs
+  rw [endDiag_none] at hitem
+  have hK := h.tstop hh b
+  have hpre : WFBefore X pre (h.toks ++ b) := by
+    refine WFBefore.of_wf X pre _ _ hwf ?_
+    obtain ⟨r, hr, _⟩ := h.first hh b
+    rw [h.head X hh, hr]; rfl
+  obtain ⟨r, hr, _⟩ := h.first hh b
+  rw [hr] at hitem
+  have hstep := top_step hitem (h.node_ok _) top_nil
+  rw [← hr] at hstep
+  exact (top_prefix X hX pre _ hpre hK _ _ hstep).to rfl (by simp)
+
+/-- the body parser on the printed statements of a well-formed body: their trees, no diagnostic -/
+theorem bodyRun_stmts (ss : List (Stmt ε)) (hwf : Stmts.WF X ss) :
+    bodyRun (Stmts.toks X ss) = (Tree.list (Stmts.trees X ss), []) :=
+  bodyRun_of_parses (body_loop X ss hwf (stmts_rt X hX ss hwf)).toD
+
+omit hX in
+theorem cont_sub_sbad (h : Hdr) : ∀ k ∈ h.cont, k ∈ sbad := by
+  cases h with
+  | proc kw name ps mods => exact (contOf_facts _ _ _).2.1
+  | func kw name ps ret ty mods => show ∀ k ∈ methodModKinds, k ∈ sbad; decide +kernel
+
+omit hX in
+/-- a well-formed statement list never begins with a continuation of a header -/
+theorem noCont_stmts (h : Hdr) (ss : List (Stmt ε)) (hwf : Stmts.WF X ss) : NoCont h.cont (Stmts.toks X ss) := by
+  have hs := sstop_stmts_nil X ss hwf
+  intro x r hx hin
+  cases hts : Stmts.toks X ss with
+  | nil => rw [hts] at hx; cases hx
+  | cons t rest =>
+    have hb := hs t rest hts
+    have hc : t.kind ≠ Kind.Comment := fun e => hb (e ▸ comment_sbad)
+    rw [hts, firstReal_cons hc] at hx
+    simp only [Option.some.injEq, Prod.mk.injEq] at hx
+    exact hb (hx.1 ▸ cont_sub_sbad h _ hin)
 
 omit hX
 
